@@ -32,7 +32,7 @@ ENGINES["tasksim"] = {
 }
 
 ENGINES["treesim"] = {
-    "serves": ["C01"],
+    "serves": ["C01", "C06", "C09"],
     "kind": "single-goroutine event loop over 2-4 real sync-tree replicas with a simulated network (message multiset, ordered response streams), crash/restart, seeded fates",
     "real_vs_stub": {"real": ["objecttree (verifying change builder, validator, Tree, treeBuilder, reduce, loadIterator, storage)",
                               "synctree (syncTree, syncHandler, requestFactory, InnerHeadUpdate, response producer/collector, treeRemoteGetter)",
@@ -60,6 +60,36 @@ PROPS = {
                       "after every event, convergence (equal heads and stored sets = union of created changes) after faults stop and a fair anti-entropy phase.",
         "level_note": "real tree/sync/ACL/storage code; network and scheduling are simulated; liveness asserted only after faults stop",
         "expected_probes": [],
+    },
+    "C06": {
+        "engine": "treesim",
+        "level": "exploration",
+        "budget": {"quick": 60, "thorough": 900},
+        "rule": "one run = a C01 run (2-4 real replicas, seeded schedule with loss/dup/reorder/stream breaks/crash-restart) plus 1-3 passive receivers that are fed the run's recorded head updates afterwards in a seeded permutation "
+                "(random subset, duplicates, reopen-from-storage at random points, then an in-order completion pass). Order oracles every 4th step, after convergence and during redelivery: stored order (ascending order id) == order of a tree rebuilt in full from storage; "
+                "live view (incrementally grown / reduced / reopened) == full order restricted to its members; history view up to a random change likewise; parents first in stored and presented order; order ids of stored changes never change; "
+                "replicas holding equal change sets store identical sequences; an addition reported as Append (listener Update or local AddContent) leaves the previously presented sequence a prefix of the new one (modulo members dropped by reduction). "
+                "evaluations = per-replica order checks. Non-trivial as C01.",
+        "assumptions": COMMON_ASSUMPTIONS + ["differential oracle: the reference order is the real tree builder's full rebuild from storage (the property's own 'incremental equals rebuilt'); the sort is not re-implemented",
+                                             "only deliveries the protocol produces are used (real head updates / responses), so every receiver state is legitimate"],
+        "technique": "deterministic simulation: seeded message schedules and redelivery permutations over real replicas, differential order oracles (incremental vs rebuilt vs reduced vs reopened vs other replicas) after every few events",
+        "level_text": "Seeded exploration of arrival orders, batchings and duplications (in-run and by redelivery to passive receivers) with differential order oracles evaluated during the run and over the final states.",
+        "level_note": "real tree/sync/storage code; reference order = full rebuild by the same tree builder; network simulated",
+        "expected_probes": ["append-verdict", "rebuild-verdict", "reduced-view-checked", "equal-sets-compared", "history-view-checked", "passive-complete"],
+    },
+    "C09": {
+        "engine": "treesim",
+        "level": "exploration",
+        "budget": {"quick": 60, "thorough": 900},
+        "rule": "one run = a C01 run; at sampled points (15% of steps, and twice after convergence) an ordered pair (responder R, requester Q) of live replicas is probed: Q's real (heads, snapshot path) or an empty-heads request, batch limit from {1,64,200,400,900,2000,5000,1MiB} bytes, "
+                "batches produced by the real response producer / load iterator on R's live tree and storage; oracles on the batch sequence (complete w.r.t. R.stored minus Q.stored, parents-first among what Q lacks, size <= limit unless single change, announced heads sent-or-held, no duplicates, bytes = stored bytes) "
+                "and on applying them through the wire (marshal, unmarshal, HandleResponse) to a clone of Q (copied database reopened): no error, every change of every batch stored afterwards, final set = union. evaluations = probes. Non-trivial as C01.",
+        "assumptions": COMMON_ASSUMPTIONS + ["requests are honest: the requester's real heads and snapshot path at probe time, or the empty request",
+                                             "the clone is Q reopened from a copy of its database at a quiescent point (not Q's in-memory tree)"],
+        "technique": "deterministic simulation: states reached by seeded schedules of real replicas, full-sync responder probed per ordered pair with a swarm of batch limits, batch-sequence oracles + apply-to-clone oracle",
+        "level_text": "Seeded exploration: responder/requester state pairs are produced by simulated histories (diverged, behind, reduced, concurrent snapshots), batch limits from a swarm; oracles on the produced batches and on applying them to a clone.",
+        "level_note": "real response producer, load iterator, handler and storage; pairs and limits are sampled",
+        "expected_probes": ["multi-batch-response", "probe-diverged", "probe-requester-behind", "probe-empty-heads"],
     },
     "C16": {
         "engine": "tasksim",
